@@ -30,6 +30,7 @@ TNext == \/ Consume(Cur.op = "CreateEntity" /\ CreateEntity(Cur.a1, Cur.a2))
          \/ Consume(Cur.op = "DeleteDeferred" /\ DeleteDeferred(Cur.a1))
          \/ Consume(Cur.op = "DeleteImmediate" /\ DeleteImmediate(Cur.a1))
          \/ Consume(Cur.op = "AddProcessor" /\ AddProcessor(Cur.a1, Cur.a2))
+         \/ Consume(Cur.op = "AddProcessorFault" /\ AddProcessorFault(Cur.a1, Cur.a2))
          \/ Consume(Cur.op = "RemoveProcessor" /\ RemoveProcessor(Cur.a1))
          \/ Consume(Cur.op = "Process" /\ Process(Cur.a1))
          \/ Consume(Cur.op = "ProcessProcFault" /\ ProcessProcFault(Cur.a1, Cur.a2))
